@@ -54,7 +54,7 @@ class BlockCypher(BaseClient):
             res = [res]
         for rec in res:
             balance += float(rec['final_balance'])
-        return int(balance * self.units)
+        return int(round(balance * self.units))
 
     def getutxos(self, address, after_txid='', limit=MAX_TRANSACTIONS):
         address = self._address_convert(address)
